@@ -686,7 +686,7 @@ SUBS = [
     Sub("expr", expr_case, check_expr, quick=5000, thorough=100000),
     Sub("fx_history", None, check_history, quick=300, thorough=6000, machine=machine, steps=25),
     Sub("validator", token_case, check_tokens, quick=2500, thorough=40000),
-    Sub("creator", creator_case, check_creator, quick=160, thorough=3000),
+    Sub("creator", creator_case, check_creator, quick=300, thorough=3000),
     Sub("fuzz_tokens", None, check_fuzz_tokens, quick=0, thorough=0),  # driven by EXTRA (atheris); listed for replay
 ]
 REQUIRED_CLASSES = ["expr:neg", "expr:paren", "expr:numpy_stats", "fx_history:failed_eval_before_checked", "validator:near_miss",
